@@ -187,6 +187,14 @@ def normalise_pads(template, assumptions):
                             break
                     if not dominated:
                         kept.append(a_)
+                # an item that is <= 0 adds nothing to a maximum that is known to be positive through its other items
+                # (`max(S) <= 0` was decided False on this path for a set S of the other items)
+                positive_sets = [set(map(repr, a.items)) for (a, op, res) in assumptions
+                                 if isinstance(a, MaxOf) and ((op == "LtE" and not res) or (op == "Gt" and res))]
+                for a_ in list(kept):
+                    others = set(map(repr, (b_ for b_ in kept if b_ is not a_)))
+                    if len(kept) > 1 and nonpositive(a_, assumptions) and any(ps <= others for ps in positive_sets):
+                        kept.remove(a_)
                 n = kept[0] if len(kept) == 1 else mk_max(kept) if kept else n
             if nonpositive(n, assumptions):
                 continue
@@ -431,9 +439,9 @@ def run(P: Program, rep: Report):
         """What `str.format` makes of the text given the number of lines, or the text itself if it is no such template."""
         try:
             return text.format(n=2)
-        except (KeyError, IndexError, ValueError):
+        except (KeyError, IndexError, ValueError, AttributeError, TypeError):
             return text
-    for text in ("% failed {block}", "% closing } brace", "% open { brace", "% {0} positional", "% {n} lines", "% plain", "% {n:>4} lines", "% {n!s} lines",
+    for text in ("% {n.foo} attribute of the number", "% {n[0]} item of the number", "% failed {block}", "% closing } brace", "% open { brace", "% {0} positional", "% {n} lines", "% plain", "% {n:>4} lines", "% {n!s} lines",
                  "% {{n}} is literal, {n} is not", "% {n} and {n} again"):
         for column in (None, 12, "auto"):
             for ctx, (kind, v, after) in explore(lambda c, t=text, col=column: literal_comment(c, t, col), 20):
